@@ -102,7 +102,7 @@ def _has_live_extras(case, j, tbl=None):
 
 def _stale_none(state):
     """a field that is recorded in _none_fields while __dict__ still holds a value for it"""
-    return bool(set(state.get("nones") or []) & {k for k, _ in state["o"][1]})
+    return set(state.get("nones") or []) & {k for k, _ in state["o"][1]}
 
 
 def judge(case, impl, model):
@@ -126,8 +126,10 @@ def judge(case, impl, model):
                 fails.append(("ne-not-negation", f"a != b and a == b are both {eq[i][j]}: a={show(i)} b={show(j)}"))
             if eq[i][j] != impl["fieldwise"][i][j]:
                 which = "eq-but-fields-differ" if eq[i][j] else "fields-equal-but-ne"
-                if not eq[i][j] and (_stale_none(impl["states"][i]) or _stale_none(impl["states"][j])):
-                    which = "none-recorded-over-stored-value"
+                stale = _stale_none(impl["states"][i]) | _stale_none(impl["states"][j])
+                if not eq[i][j] and stale:
+                    imm = set(case["cls"].get("immFields") or [])
+                    which = "none-recorded-over-immutable-field" if stale <= imm else "none-recorded-over-stored-value"
                 fails.append((f"eq-vs-readback:{which}", f"a == b is {eq[i][j]} but field-wise equality of the values read back is "
                               f"{impl['fieldwise'][i][j]}: a={show(i)} b={show(j)}"))
             if i == j:
